@@ -81,16 +81,21 @@ def dir_restore(tok, saved):
 
 
 # ------------------------------------------------------------------------------------------------ one process
+PRIVATE_IDS = ("k1",)
+
+
 class Proc:
-    def __init__(self, p, slot, pin=W.USER_A):
+    def __init__(self, p, slot, pin=W.USER_A, login=True):
         self.p = p
         self.sh = p.sh
+        self.public = not login          # a process that never logs in sees the public objects only
         W.ok(p.Initialize(), "C_Initialize")
         self.s = W.ok(p.OpenSession(slot), "C_OpenSession")["h"]
-        W.ok(p.Login(self.s, C.CKU_USER, pin), "C_Login")
+        if login:
+            W.ok(p.Login(self.s, C.CKU_USER, pin), "C_Login")
         self.h = {}
         o = self.obs(remember=True)
-        if o != model_obs(MODEL0):
+        if o != model_obs(MODEL0, self.public):
             raise RuntimeError("set-up observation differs from the initial model: %r" % (o,))
 
     def obs(self, remember=False):
@@ -120,8 +125,8 @@ class Proc:
         return tuple(bytes.fromhex(x[2])[:max(x[1], 0)].decode("latin1") for x in r["attrs"])
 
 
-def model_obs(model):
-    return tuple(sorted((k, v[0], v[1]) for k, v in model.items()))
+def model_obs(model, public=False):
+    return tuple(sorted((k, v[0], v[1]) for k, v in model.items() if not (public and k in PRIVATE_IDS)))
 
 
 def model_get(model, ident):
@@ -146,16 +151,16 @@ def classify(seen, expect):
 
 
 # ------------------------------------------------------------------------------------------------ part (a)
-def actions_for(nprocs, created):
+def actions_for(nprocs, created, public=()):
     out = []
     for p in range(nprocs):
         if not created[p]:
             out.append(("create", p))
-        out += [("label", p, "o1"), ("date", p, "o1"), ("label", p, "k1"), ("destroy", p, "o1"), ("obs", p), ("get", p, "o1")]
+        out += [("label", p, "o1"), ("date", p, "o1")] + ([] if p in public else [("label", p, "k1")]) + [("destroy", p, "o1"), ("obs", p), ("get", p, "o1")]
     return out
 
 
-def call_sequences(nprocs, length):
+def call_sequences(nprocs, length, public=()):
     """all action sequences of exactly `length` (model-level enabledness only)"""
     out = []
 
@@ -163,7 +168,7 @@ def call_sequences(nprocs, length):
         if len(seq) == length:
             out.append(list(seq))
             return
-        for a in actions_for(nprocs, created):
+        for a in actions_for(nprocs, created, public):
             c2 = list(created)
             if a[0] == "create":
                 c2[a[1]] = True
@@ -175,16 +180,17 @@ def call_sequences(nprocs, length):
 
 
 class CallWorld:
-    def __init__(self, ctx, nprocs):
+    def __init__(self, ctx, nprocs, public=()):
         self.ctx = ctx
         self.n = nprocs
+        self.public = tuple(public)
         self.sd = os.path.join(ctx.root, "c15-%d" % os.getpid())
         shutil.rmtree(self.sd, ignore_errors=True)
         shutil.copytree(core._W["template"]["dir"], self.sd)
         self.tok = os.path.join(self.sd, "tokens")
         slot = ctx.world["slots"]["A"]
         self.shells = [core.ShellD(ctx.variant, self.sd) for _ in range(nprocs + 1)]
-        self.procs = [Proc(P.P11(sh), slot) for sh in self.shells]        # the last one is the witness
+        self.procs = [Proc(P.P11(sh), slot, login=(i not in self.public)) for i, sh in enumerate(self.shells)]        # the last one is the witness
         self.viol = {}
         self.nodes = 0
         self.probes = 0
@@ -198,7 +204,7 @@ class CallWorld:
         shutil.rmtree(self.sd, ignore_errors=True)
 
     def V(self, sig, hist, detail):
-        self.viol.setdefault(sig, {"signature": sig, "detail": detail, "history": [list(a) for a in hist], "action": None, "task": ["call", self.n, [list(a) for a in hist]]})
+        self.viol.setdefault(sig, {"signature": sig, "detail": detail, "history": [list(a) for a in hist], "action": None, "task": ["call", [self.n, list(self.public)], [list(a) for a in hist]]})
 
     def apply(self, a, model, depth, hist):
         """execute action a on the real processes; returns the new model"""
@@ -237,8 +243,8 @@ class CallWorld:
                 m2.pop(ident, None)
         elif kind == "obs":
             o = pr.obs(remember=True)
-            if o != model_obs(model):
-                self.V("C15|call|obs|%s" % classify(o, model_obs(model)), hist, {"who": who, "seen": repr(o), "model": repr(model_obs(model))})
+            if o != model_obs(model, pr.public):
+                self.V("C15|call|obs|%s" % classify(o, model_obs(model, pr.public)), hist, {"who": who, "seen": repr(o), "model": repr(model_obs(model, pr.public))})
         elif kind == "get":
             g = pr.get(a[2])
             if g != model_get(model, a[2]):
@@ -246,9 +252,9 @@ class CallWorld:
         return m2
 
     def probe_all(self, a, model, hist):
-        exp = model_obs(model)
         for i, pr in enumerate(self.procs):
-            role = "witness" if i == self.n else ("caller" if i == a[1] else "other-process")
+            exp = model_obs(model, pr.public)
+            role = "witness" if i == self.n else ("caller" if i == a[1] else ("other-process" if not pr.public else "other-process-not-logged-in"))
             pr.sh.snap(copy=False)
             try:
                 o = pr.obs()
@@ -264,7 +270,7 @@ class CallWorld:
     def dfs(self, model, created, hist, depth_left):
         if depth_left == 0:
             return
-        for a in actions_for(self.n, created):
+        for a in actions_for(self.n, created, self.public):
             saved = dir_save(self.tok)
             handles = [dict(pr.h) for pr in self.procs]
             for pr in self.procs[:self.n]:
@@ -290,11 +296,14 @@ class CallWorld:
 def _call_task(task):
     """replay `prefix` (checking every step), then explore everything below it down to `depth`"""
     nprocs, prefix, depth = task
+    public = ()
+    if isinstance(nprocs, (list, tuple)):
+        nprocs, public = nprocs[0], tuple(nprocs[1])
     ctx = core._W["ctx"]
     out = {"viol": [], "harness": None, "nodes": 0, "probes": 0}
     cw = None
     try:
-        cw = CallWorld(ctx, nprocs)
+        cw = CallWorld(ctx, nprocs, public)
         model, created, hist = dict(MODEL0), [False] * nprocs, []
         for a in prefix:
             a = tuple(a)
@@ -311,7 +320,7 @@ def _call_task(task):
     except Died as d:
         out["viol"] = list(cw.viol.values()) if cw else []
         sig = "C15|call|process-died|%s" % (json.dumps(d.info, sort_keys=True))
-        out["viol"].append({"signature": sig, "detail": {"during": (d.during or "")[:200]}, "history": [list(a) for a in prefix], "action": None, "task": ["call", nprocs, [list(a) for a in prefix]]})
+        out["viol"].append({"signature": sig, "detail": {"during": (d.during or "")[:200]}, "history": [list(a) for a in prefix], "action": None, "task": ["call", [nprocs, list(public)], [list(a) for a in prefix]]})
     except Exception:
         out["harness"] = "task %r: %s" % (task, traceback.format_exc())
     finally:
@@ -395,6 +404,10 @@ PAIRS = {
     "set-private-label-vs-find": (("label", "k1"), ("find",)),
     "destroy-vs-destroy": (("destroy", "o1"), ("destroy", "o1")),
     "set-label-vs-get": (("label", "o1"), ("get", "o1")),
+    # the second process never logs in (public session): it must see committed PUBLIC objects all the same
+    "create-vs-find-by-process-not-logged-in": (("create",), ("find",), {"public": (1,)}),
+    "create-vs-set-label-other-object-by-process-not-logged-in": (("create",), ("label", "o2"), {"public": (1,)}),
+    "set-label-vs-find-by-process-not-logged-in": (("label", "o1"), ("find",), {"public": (1,)}),
 }
 
 
@@ -424,7 +437,8 @@ def Proc_view(p, slot):
 def run_pair(ctx, name, mode, choices, timeout=20):
     """mode 'fsx': both calls inside one scheduled window; mode ('serial', order): plain processes, the calls listed in `order` one after the other.
     returns (outcome, points, error)"""
-    specs = PAIRS[name]
+    specs = PAIRS[name][:2]
+    public = (PAIRS[name][2] if len(PAIRS[name]) > 2 else {}).get("public", ())
     sd = os.path.join(ctx.root, "c15b-%d" % os.getpid())
     shutil.rmtree(sd, ignore_errors=True)
     shutil.copytree(core._W["template"]["dir"], sd)
@@ -439,7 +453,7 @@ def run_pair(ctx, name, mode, choices, timeout=20):
             proc, shells = fsx_group(ctx.variant, sd, 2, choices, outfile)
         else:
             shells = [P.Shell(ctx.variant, sd) for _ in range(2)]
-        procs = [Proc(P.P11(sh), slot) for sh in shells]
+        procs = [Proc(P.P11(sh), slot, login=(i not in public)) for i, sh in enumerate(shells)]
         lines = [call_line(pr, specs[i], i) for i, pr in enumerate(procs)]
         answers = [None, None]
         if mode == "fsx":
@@ -563,7 +577,7 @@ def _pair_task(task):
     def V(sig, det):
         out["viol"].setdefault(sig, {"signature": sig, "detail": det, "history": [], "action": None, "task": ["pair", name, det.get("schedule", [])]})
     try:
-        specs = PAIRS[name]
+        specs = PAIRS[name][:2]
         refs = {}
         for order in ((0, 1), (1, 0), (0,), (1,), ()):
             refs[order], _p, _e = run_pair(ctx, name, ("serial", order), [])
@@ -631,8 +645,8 @@ def main(tier):
     total_nodes = total_sched = total_probes = 0
     try:
         # ---- (a) call granularity
-        for nprocs, depth, plen in ((2, 4, 2), (3, 3, 2)) if quick else ((2, 5, 3), (3, 4, 2)):
-            tasks = [(nprocs, pre, depth) for pre in call_sequences(nprocs, plen)]
+        for nprocs, public, depth, plen in ((2, (), 4, 2), (2, (1,), 4, 2), (3, (), 3, 2)) if quick else ((2, (), 5, 3), (2, (1,), 5, 3), (3, (), 4, 2), (3, (2,), 4, 2)):
+            tasks = [([nprocs, list(public)], pre, depth) for pre in call_sequences(nprocs, plen, public)]
             nodes = probes = 0
             # the nodes on the shared prefixes are re-executed by every task; count distinct sequences instead
             for r in ex.pool.imap_unordered(_call_task, tasks, chunksize=1):
@@ -647,7 +661,7 @@ def main(tier):
                     break
             if not complete:
                 break
-            cov_a.append({"processes": nprocs, "witness": 1, "depth": depth, "call_sequences_executed": nodes, "probe_observations": probes, "tasks": len(tasks)})
+            cov_a.append({"processes": nprocs, "not_logged_in": list(public), "witness": 1, "depth": depth, "call_sequences_executed": nodes, "probe_observations": probes, "tasks": len(tasks)})
             total_nodes += nodes
             total_probes += probes
         # ---- (b) file-operation granularity
